@@ -28,7 +28,7 @@ BASE = 'avx2-stats-ndebug-pause'            # the configuration the pinned test 
 DEBUG = 'avx2-stats-debug-pause'
 ALL_CFGS = ['%s-%s-%s-%s' % (a, b, c, d) for a in ('avx2', 'sse41') for b in ('stats', 'nostats') for c in ('ndebug', 'debug') for d in ('pause', 'empty')]
 
-CLANG = ['clang++-14', '-std=c++20', '-S', '-emit-llvm', '-O0', '-fno-discard-value-names', '-Xclang', '-disable-O0-optnone',
+CLANG = ['clang++-14', '-std=c++20', '-S', '-emit-llvm', '-O0', '-fno-discard-value-names', '-Xclang', '-disable-O0-optnone', '-fno-access-control',
          '-Wno-everything', '-I' + REPO]
 
 CACHE_DIR = os.environ.get('VERIF_CACHE_DIR', '/var/tmp/verif_cache')
